@@ -50,6 +50,13 @@ package rapid
 //@ spec isInit(phase interop.LifecyclePhase) int = ite(phase == interop.LifecyclePhaseInit, 1, 0)
 //@ spec isInvoke(phase interop.LifecyclePhase) int = ite(phase == interop.LifecyclePhaseInvoke, 1, 0)
 
+// C05 / C08: the per-generation state of the rapid context (initDone) belongs to the handler mutex: init, invoke and reset
+// handling read and write it with handlerExecutionMutex held, so that an invocation queued behind a reset sees either the old
+// generation (and is cancelled with it) or a completely cleared context
+//@ monitor rapidContext r
+//@   lock r.handlerExecutionMutex
+//@   protects initDone
+
 //@ func agentLaunchError
 //@   requires agent != nil
 
@@ -100,6 +107,18 @@ package rapid
 //@   loop range execCtx.registrationService.AgentsInfo(): invariant [line-reports-the-element] rangeindex >= 0 ==> lastarg(EvExtensionInit, 1).AgentName == lastret(AgentsInfoRead)[rangeindex].Name && lastarg(EvExtensionInit, 1).State == lastret(AgentsInfoRead)[rangeindex].State && lastarg(EvExtensionInit, 1).ErrorType == lastret(AgentsInfoRead)[rangeindex].ErrorType && lastarg(EvExtensionInit, 1).Subscriptions == lastret(AgentsInfoRead)[rangeindex].Subscriptions
 //@   loop range execCtx.registrationService.AgentsInfo(): invariant delta(AgentsInfoRead) == 1 && delta(EvExtensionInit) == rangeindex + 1 && 0 <= rangeindex + 1 && rangeindex + 1 <= len(lastret(AgentsInfoRead)) && delta(EvInitStart) == 0 && delta(EvInitReport) == 0 && delta(EvInitRuntimeDone) == 0
 
+// the handlers take the handler mutex and run the protected part with it held
+//@ func (*rapidContext).HandleInit
+//@   requires r != nil && init != nil && init.EnvironmentVariables != nil
+//@ func (*rapidContext).HandleInvoke
+//@   requires r != nil && invoke != nil && sbInfoFromInit.EnvironmentVariables != nil
+//@ func handleInvoke
+//@   requires execCtx != nil && invokeRequest != nil && sbInfoFromInit.EnvironmentVariables != nil
+//@   requires held(execCtx)
+//@ func handleInit
+//@   requires execCtx != nil && initRequest != nil && initRequest.EnvironmentVariables != nil
+//@   requires held(execCtx)
+
 //@ func doRuntimeDomainInit$1
 //@   requires execCtx != nil
 //@   ensures [status-lines-only] delta(EvInitStart) == 0 && delta(EvInitReport) == 0 && delta(EvInitRuntimeDone) == 0
@@ -121,6 +140,7 @@ package rapid
 
 // C03 + C15: the initialisation skeleton
 //@ func doRuntimeDomainInit
+//@   requires held(execCtx)
 //@   requires execCtx != nil && validPhase(phase) && sbInfoFromInit.EnvironmentVariables != nil
 //@   ensures [init-start-then-report] delta(EvInitStart) == 1 && delta(EvInitReport) == 1 && first(EvInitStart) < first(EvInitReport)
 //@   ensures [at-most-one-runtime-done-inside] delta(EvInitRuntimeDone) <= 1 && (delta(EvInitRuntimeDone) == 1 ==> first(EvInitStart) < first(EvInitRuntimeDone) && first(EvInitRuntimeDone) < first(EvInitReport))
@@ -197,6 +217,7 @@ package rapid
 
 // inline init: initialisation inside the first invocation
 //@ func doInvoke$1$1
+//@   requires held(execCtx)
 //@   requires execCtx != nil && sbInfoFromInit.EnvironmentVariables != nil
 //@   ensures [inline-init-once] delta(InlineInit) == 1 && delta(InlineInitOK) == ite(r0 == nil, 1, 0)
 //@   ensures [done-on-success] r0 == nil ==> execCtx.initDone
@@ -228,6 +249,7 @@ package rapid
 
 // the body of one invocation
 //@ func doInvoke$1
+//@   requires held(execCtx)
 //@   requires execCtx != nil && ctxWired(execCtx) && invokeRequest != nil && mx != nil && sbInfoFromInit.EnvironmentVariables != nil
 //@   ensures [at-most-one-runtime-done-per-invocation] rtDoneBooked(execCtx)
 //@   ensures [one-invoke-start] delta(EvInvokeStart) == 1 && lastarg(EvInvokeStart, 1).RequestID == old(invokeRequest).ID
@@ -240,6 +262,7 @@ package rapid
 //@   ensures [runtime-done-is-truthful] delta(EvInvokeRuntimeDone) <= 1 && delta(EvInvokeRuntimeDoneSuccess) == delta(EvInvokeRuntimeDone) && (delta(EvInvokeRuntimeDone) == 1 ==> first(EvInvokeStart) < first(EvInvokeRuntimeDone) && delta(AwaitResponseOK) == 1 && delta(AwaitInvokeRuntimeReadyOK) == 1 && last(AwaitInvokeRuntimeReadyOK) < first(EvInvokeRuntimeDone))
 
 //@ func doInvoke
+//@   requires held(execCtx)
 //@   requires execCtx != nil && invokeRequest != nil && mx != nil && sbInfoFromInit.EnvironmentVariables != nil
 //@   ensures [at-most-one-runtime-done-per-invocation] rtDoneBooked(execCtx)
 //@   ensures [one-invoke-start] delta(EvInvokeStart) == 1 && lastarg(EvInvokeStart, 1).RequestID == old(invokeRequest.ID)
@@ -331,6 +354,7 @@ package rapid
 //@ spec initGates(c *rapidContext) *core.initFlowSynchronizationImpl = c.initFlow.(*core.initFlowSynchronizationImpl)
 //@ spec invokeGates(c *rapidContext) *core.invokeFlowSynchronizationImpl = c.invokeFlow.(*core.invokeFlowSynchronizationImpl)
 //@ func reinitialize
+//@   requires held(execCtx)
 //@   ensures [no-recorded-error-or-runtime-identity] !has(ctxOf(execCtx.appCtx).m, appctx.AppCtxFirstFatalErrorKey) && !has(ctxOf(execCtx.appCtx).m, appctx.AppCtxRuntimeReleaseKey) && !has(ctxOf(execCtx.appCtx).m, appctx.AppCtxInvokeErrorTraceDataKey)
 //@   ensures [not-initialised] !execCtx.initDone
 // like in a freshly started context, no invocation has started: a reset now owes no runtime-done
@@ -420,8 +444,12 @@ package rapid
 //@ event EnvForInitCaching = call rapidcore/env.(*Environment).StoreEnvironmentVariablesFromInitForInitCaching
 //@ event EnvWithKeys = call rapidcore/env.(*Environment).StoreEnvironmentVariablesFromInit
 //@ event CredentialsStored = call core.(CredentialsService).SetCredentials
+//@ func (*rapidContext).acceptInitRequest
+//@   requires c != nil && initRequest != nil && initRequest.EnvironmentVariables != nil
+//@   ensures [the-request-is-handed-back] r0 == initRequest && r0.EnvironmentVariables == old(initRequest.EnvironmentVariables)
 //@ func (*rapidContext).acceptInitRequestForInitCaching
 //@   requires c != nil && initRequest != nil && initRequest.EnvironmentVariables != nil
+//@   ensures [the-request-is-handed-back] r0 == initRequest && r0.EnvironmentVariables == old(initRequest.EnvironmentVariables)
 //@   ensures [token-in-env-keys-in-service] r1 == nil ==> delta(EnvForInitCaching) == 1 && delta(EnvWithKeys) == 0 && delta(CredentialsStored) == 1 && lastarg(CredentialsStored, 1) == lastarg(EnvForInitCaching, 7) && lastarg(CredentialsStored, 2) == initRequest.AwsKey && lastarg(CredentialsStored, 3) == initRequest.AwsSecret && lastarg(CredentialsStored, 4) == initRequest.AwsSession
 //@   ensures [nothing-without-a-token] r1 != nil ==> delta(EnvForInitCaching) == 0 && delta(CredentialsStored) == 0
 
